@@ -23,6 +23,36 @@ CHOICES = [
     ('path/u8', 'K7', 'u8', '7u8', False), ('ctor/V', 'V(4)', 'V', 'V(4)', False), ('callS/String', 'String::from("s")', 'String', 'String::from("s")', False),
     ('not/bool', '!false', 'bool', 'true', False), ('cast/u16', '3u8 as u16', 'u16', '3u16', False),
 ]
+# the systematic part of the literal-kind x field-type matrix: every std target type that has a From impl for the literal's natural type
+INTS = ['u8', 'u16', 'u32', 'u64', 'u128', 'usize', 'i8', 'i16', 'i32', 'i64', 'i128', 'isize']
+_have = {c[0] for c in CHOICES}
+
+
+def _add(cid, lit, ty, exp):
+    if cid not in _have:
+        _have.add(cid)
+        CHOICES.append((cid, lit, ty, exp, True))
+
+
+for _t in ['u8', 'u16', 'u32', 'u64', 'u128', 'usize', 'i16', 'i32', 'i64', 'i128', 'isize', 'f32', 'f64', 'char']:       # From<u8>
+    _e = "'x'" if _t == 'char' else ('120.0' + _t if _t[0] == 'f' else '120' + _t)
+    _add('byte/' + _t, "b'x'", _t, _e)
+    _add('ints/' + _t, '7u8', _t, "'\\u{7}'" if _t == 'char' else ('7.0' + _t if _t[0] == 'f' else '7' + _t))
+for _t in INTS:
+    _add('bool/' + _t, 'true', _t, '1' + _t)                                  # From<bool>
+    _add('int/' + _t, '7', _t, '7' + _t)                                      # unsuffixed integer: the field's own type
+for _t in ['i16', 'i32', 'i64', 'i128', 'isize', 'f32', 'f64']:
+    _add('negs8/' + _t, '-4i8', _t, ('-4.0' + _t) if _t[0] == 'f' else '-4' + _t)     # From<i8>
+for _t in ['u32', 'u64', 'u128', 'i32', 'i64', 'i128', 'usize', 'f32', 'f64']:
+    _add('ints16/' + _t, '300u16', _t, ('300.0' + _t) if _t[0] == 'f' else '300' + _t)   # From<u16>
+for _t in ['u64', 'u128', 'String', 'char']:
+    _add('char/' + _t, "'x'", _t, {'String': 'String::from("x")', 'char': "'x'"}.get(_t, '120' + _t))   # From<char>
+for _t, _e in [('Box<str>', 'Box::<str>::from("hi")'), ("std::borrow::Cow<'static, str>", 'std::borrow::Cow::Borrowed("hi")'), ('std::path::PathBuf', 'std::path::PathBuf::from("hi")'),
+               ('std::rc::Rc<str>', 'std::rc::Rc::<str>::from("hi")'), ('Vec<u8>', 'vec![104u8, 105u8]'), ('std::ffi::OsString', 'std::ffi::OsString::from("hi")')]:
+    _add('str/' + _t, '"hi"', _t, _e)                                        # From<&str>
+_add('flts/f32x', '2.5f32', 'f32', '2.5f32')
+_add('flt/f64n', '-1.5', 'f64', '-1.5f64')
+_add('bstr/Cow', 'b"hi"', "std::borrow::Cow<'static, [u8]>", 'std::borrow::Cow::Borrowed(&b"hi"[..])')
 CH = {c[0]: c for c in CHOICES}
 TYPE_DEFAULT = {'u8': '0u8', 'V': 'V(0)', 'String': 'String::new()', 'bool': 'false', 'u16': '0u16'}
 SPELL = ['Default = {e}', 'Default(expression = {e})', 'Default(expr = {e})', 'Default(expression({e}))', 'Default(expr({e}))']
@@ -124,6 +154,22 @@ def build(kind, style, choices, sps, vstyles=None, focus=0, marker=True, tl='non
                 expect='accept', run=True, depth=depth)
 
 
+TEXPR_MORE = {
+    'enum1t': ('pub enum Ty {\n    V0(u8, V),\n}\n', 'Ty::V0(5, V(6))'),
+    'enum1n': ('pub enum Ty {\n    V0 { f0: u8, f1: V },\n}\n', 'Ty::V0 { f0: 5, f1: V(6) }'),
+    'enum1u': ('pub enum Ty {\n    V0,\n}\n', 'Ty::V0'),
+    'enum1t1': ('pub enum Ty {\n    V0(u8),\n}\n', 'Ty::V0(5)'),
+    'enum2': ('pub enum Ty {\n    V0(u8),\n    V1 { f0: u8 },\n}\n', 'Ty::V1 { f0: 7 }'),
+    'enum5': ('pub enum Ty {\n    V0,\n    V1,\n    V2(u8),\n    V3,\n    V4 { f0: V, f1: u8 },\n}\n', 'Ty::V4 { f0: V(3), f1: 4 }'),
+    'struct1': ('pub struct Ty {\n    pub f0: u8,\n}\n', 'Ty { f0: 5 }'),
+    'tuple1': ('pub struct Ty(pub V);\n', 'Ty(V(6))'),
+    'unit': ('pub struct Ty;\n', 'Ty'),
+    'tuple0': ('pub struct Ty();\n', 'Ty()'),
+    'named0': ('pub struct Ty {}\n', 'Ty {}'),
+    'call': ('pub struct Ty(pub u8, pub u8);\nfn mk() -> Ty { Ty(8, 9) }\n', 'mk()'),
+}
+
+
 def build_type_expr(kind, tl, salt):
     """type-level expression (and optionally new): fields carry no attributes"""
     sp = ['expression = {e}', 'expr = {e}', 'expression({e})', 'expr({e})'][salt % 4]
@@ -138,6 +184,9 @@ def build_type_expr(kind, tl, salt):
     elif kind == 'enum':
         decl = 'pub enum Ty {\n    V0,\n    V1(u8),\n    V2 { f0: V },\n}\n'
         e = ['Ty::V1(9)', 'Ty::V2 { f0: V(2) }', 'Ty::V0'][salt % 3]
+        want = e
+    elif kind in TEXPR_MORE:
+        decl, e = TEXPR_MORE[kind]
         want = e
     else:
         decl = 'pub union Ty {\n    pub f0: u8,\n    pub f1: u16,\n}\n'
@@ -176,7 +225,7 @@ def generate(tier):
             add(build('struct', 't', [cid], [sp]))
             add(build('enum', 'n', [cid], [sp], vstyles=['u', 'F', 't'], focus=1))
             add(build('enum', 't', [cid], [sp], vstyles=['n', 'u', 'F'], focus=2))
-            if "'a" not in CH[cid][2] and CH[cid][2] not in ('String', 'Vec<u8>'):
+            if "'a" not in CH[cid][2] and CH[cid][2] not in ('String', 'Vec<u8>') and not CH[cid][2].startswith(('Box<', 'std::')):
                 add(build('union', 'n', [cid], [sp], vstyles=['x', 'x'], focus=(sp % 2)))
                 if sp < 2 or tier != 'quick':
                     add(build('union', 'n', [cid], [sp], vstyles=['x'], focus=0, tag='|sole'))
@@ -249,7 +298,7 @@ def generate(tier):
         for new in ('none', 'new'):
             add(build('struct', style, [], [], tl=new))
     # type-level expression
-    for kind in ('struct', 'tuple', 'enum', 'union'):
+    for kind in ['struct', 'tuple', 'enum', 'union'] + sorted(TEXPR_MORE):
         for tl in ('expr', 'both'):
             for salt in range(4 if tier == 'quick' else 12):
                 cases.append(build_type_expr(kind, tl, salt))
